@@ -630,4 +630,116 @@ theorem mul_path_exact_src (x y : Fmt) (hx : x.WF) (hy : y.WF) (a b : Int) (ha :
       (a * b) = some (a * b) :=
   path_exact_of_cautious _ _ (mul_needs_pyint x y _) x y _ (C19.mul_path_exact x y hx hy a b ha hb)
 
+/-! ## carrier selection of dot / matmul / prod (D70): the 64-bit route is taken only where it is exact -/
+
+/-- a sum of `n` products of in-range codes is at most `n · 2^(n_x + n_y)` in magnitude. -/
+theorem abs_dot_le (x y : Fmt) (as bs : List Int) (ha : ∀ a ∈ as, x.InRange a) (hb : ∀ b ∈ bs, y.InRange b) :
+    |dotL as bs| ≤ (as.length : Int) * 2 ^ (x.nword + y.nword) := by
+  unfold dotL
+  rw [C15.sumL_eq]
+  have hp : ∀ p ∈ List.zipWith (· * ·) as bs, -(2 ^ (x.nword + y.nword) : Int) ≤ p ∧ p ≤ 2 ^ (x.nword + y.nword) := by
+    intro p hp
+    obtain ⟨i, hi, rfl⟩ := List.mem_iff_getElem.mp hp
+    simp only [List.getElem_zipWith]
+    simp only [List.length_zipWith] at hi
+    have h1 := abs_le_pow_of_inRange x _ (ha _ (List.getElem_mem (by omega : i < as.length)))
+    have h2 := abs_le_pow_of_inRange y _ (hb _ (List.getElem_mem (by omega : i < bs.length)))
+    have : |as[i] * bs[i]| ≤ 2 ^ (x.nword + y.nword) := by
+      rw [abs_mul, pow_add]
+      exact mul_le_mul h1 h2 (abs_nonneg _) (by positivity)
+    exact abs_le.mp this
+  obtain ⟨hl, hu⟩ := C15.sum_bounds _ _ _ hp
+  have hlen : ((List.zipWith (· * ·) as bs).length : Int) ≤ as.length := by
+    simp only [List.length_zipWith]; exact_mod_cast Nat.min_le_left _ _
+  have hB : (0:Int) ≤ 2 ^ (x.nword + y.nword) := by positivity
+  rw [abs_le]
+  constructor <;> nlinarith
+
+/-- the arithmetic content of the carrier rule of dot / matmul: with `clog2 n + n_x + n_y + max(shift, 0)` below 63 the rescaled sum
+of products is at most `2^62`, and with it below 53 at most `2^52`. -/
+theorem dot_bound (x y : Fmt) (F : Int) (as bs : List Int) (ha : ∀ a ∈ as, x.InRange a) (hb : ∀ b ∈ bs, y.InRange b) (N : Nat)
+    (hN : (clog2 as.length : Int) + x.nword + y.nword + max (F - x.nfrac - y.nfrac) 0 ≤ N) :
+    |dotL as bs| * 2 ^ (F - x.nfrac - y.nfrac).toNat ≤ 2 ^ N := by
+  have hd := abs_dot_le x y as bs ha hb
+  have hk : (as.length : Int) ≤ 2 ^ clog2 as.length := by exact_mod_cast C15.le_two_pow_clog2 as.length
+  have he : ((F - x.nfrac - y.nfrac).toNat : Int) = max (F - x.nfrac - y.nfrac) 0 := by
+    rw [Int.toNat_eq_max]
+  have hexp : clog2 as.length + (x.nword + y.nword) + (F - x.nfrac - y.nfrac).toNat ≤ N := by omega
+  calc |dotL as bs| * 2 ^ (F - x.nfrac - y.nfrac).toNat
+      ≤ ((as.length : Int) * 2 ^ (x.nword + y.nword)) * 2 ^ (F - x.nfrac - y.nfrac).toNat :=
+        mul_le_mul_of_nonneg_right hd (by positivity)
+    _ ≤ (2 ^ clog2 as.length * 2 ^ (x.nword + y.nword)) * 2 ^ (F - x.nfrac - y.nfrac).toNat := by
+        apply mul_le_mul_of_nonneg_right _ (by positivity)
+        exact mul_le_mul_of_nonneg_right hk (by positivity)
+    _ = 2 ^ (clog2 as.length + (x.nword + y.nword) + (F - x.nfrac - y.nfrac).toNat) := by ring
+    _ ≤ 2 ^ N := pow_le_pow_right₀ (by norm_num) hexp
+
+/-- dot: when the python-integer branch is not taken, the sum of products of in-range codes, rescaled to the result's
+fraction length, is at most `2^62` in magnitude (NumPy's 64-bit integers hold it), and at most `2^52` for a signed with an unsigned
+operand (NumPy combines those in float64, which holds 53 bits). -/
+theorem dot_int64_path (x y : Fmt) (F : Int) (as bs : List Int)
+    (h : Gen.dotNeedsPyInt x.signed x.nword x.nint x.nfrac y.signed y.nword y.nint y.nfrac F as.length = false)
+    (ha : ∀ a ∈ as, x.InRange a) (hb : ∀ b ∈ bs, y.InRange b) :
+    |dotL as bs| * 2 ^ (F - x.nfrac - y.nfrac).toNat ≤ 2 ^ 62 ∧
+      (x.signed ≠ y.signed → |dotL as bs| * 2 ^ (F - x.nfrac - y.nfrac).toNat ≤ 2 ^ 52) := by
+  unfold Gen.dotNeedsPyInt at h
+  simp only [Bool.or_eq_false_iff, decide_eq_false_iff_not, Bool.and_eq_false_iff, Int.toNat_natCast] at h
+  obtain ⟨⟨_, h63⟩, h53⟩ := h
+  constructor
+  · exact dot_bound x y F as bs ha hb 62 (by omega)
+  · intro hs
+    rcases h53 with h | h
+    · exact absurd h (by simpa using hs)
+    · exact dot_bound x y F as bs ha hb 52 (by omega)
+
+/-- matmul: the same rule as dot (every entry is a dot product of a row and a column). -/
+theorem matmul_int64_path (x y : Fmt) (F : Int) (as bs : List Int)
+    (h : Gen.matmulNeedsPyInt x.signed x.nword x.nint x.nfrac y.signed y.nword y.nint y.nfrac F as.length = false)
+    (ha : ∀ a ∈ as, x.InRange a) (hb : ∀ b ∈ bs, y.InRange b) :
+    |dotL as bs| * 2 ^ (F - x.nfrac - y.nfrac).toNat ≤ 2 ^ 62 ∧
+      (x.signed ≠ y.signed → |dotL as bs| * 2 ^ (F - x.nfrac - y.nfrac).toNat ≤ 2 ^ 52) := by
+  unfold Gen.matmulNeedsPyInt at h
+  simp only [Bool.or_eq_false_iff, decide_eq_false_iff_not, Bool.and_eq_false_iff, Int.toNat_natCast] at h
+  obtain ⟨⟨_, h63⟩, h53⟩ := h
+  constructor
+  · exact dot_bound x y F as bs ha hb 62 (by omega)
+  · intro hs
+    rcases h53 with h | h
+    · exact absurd h (by simpa using hs)
+    · exact dot_bound x y F as bs ha hb 52 (by omega)
+
+/-- a product of `k` in-range codes is at most `2^(k·n_word)` in magnitude. -/
+theorem abs_prod_le (x : Fmt) (cs : List Int) (h : ∀ c ∈ cs, x.InRange c) : |cs.prod| ≤ 2 ^ (cs.length * x.nword) := by
+  induction cs with
+  | nil => simp
+  | cons c t ih =>
+    have hc := abs_le_pow_of_inRange x c (h c (by simp))
+    have := ih (fun a ha => h a (by simp [ha]))
+    simp only [List.prod_cons, List.length_cons, abs_mul]
+    rw [show (t.length + 1) * x.nword = x.nword + t.length * x.nword by ring, pow_add]
+    exact mul_le_mul hc this (abs_nonneg _) (by positivity)
+
+/-- prod: when the python-integer branch is not taken, the product of the in-range codes, rescaled to the result's fraction
+length, is at most `2^62` in magnitude. -/
+theorem prod_int64_path (x : Fmt) (F : Int) (cs : List Int)
+    (h : Gen.prodNeedsPyInt x.signed x.nword x.nint x.nfrac F cs.length = false) (hc : ∀ c ∈ cs, x.InRange c) :
+    |prodL cs| * 2 ^ (F - cs.length * x.nfrac).toNat ≤ 2 ^ 62 := by
+  unfold Gen.prodNeedsPyInt at h
+  simp only [Bool.or_eq_false_iff, decide_eq_false_iff_not] at h
+  obtain ⟨_, h63⟩ := h
+  rw [C15.prodL_eq]
+  have hp := abs_prod_le x cs hc
+  have he : ((F - cs.length * x.nfrac).toNat : Int) = max (F - cs.length * x.nfrac) 0 := by rw [Int.toNat_eq_max]
+  have hexp : cs.length * x.nword + (F - cs.length * x.nfrac).toNat ≤ 62 := by
+    have : ((cs.length * x.nword : Nat) : Int) = (cs.length : Int) * x.nword := by push_cast; ring
+    omega
+  calc |cs.prod| * 2 ^ (F - cs.length * x.nfrac).toNat
+      ≤ 2 ^ (cs.length * x.nword) * 2 ^ (F - cs.length * x.nfrac).toNat := mul_le_mul_of_nonneg_right hp (by positivity)
+    _ = 2 ^ (cs.length * x.nword + (F - cs.length * x.nfrac).toNat) := by rw [pow_add]
+    _ ≤ 2 ^ 62 := pow_le_pow_right₀ (by norm_num) hexp
+
+example : Gen.dotNeedsPyInt true 12 4 8 false 12 4 8 16 4 = false ∧ Gen.dotNeedsPyInt false 42 42 0 false 42 42 0 0 2 = true ∧
+    Gen.prodNeedsPyInt false 42 42 0 0 2 = true ∧ Gen.prodNeedsPyInt true 8 6 2 6 3 = false := by decide +kernel
+
+
 end Fxp.Gen.Tie
